@@ -31,6 +31,9 @@ def parseOp : List String → Option HOp
   | ["seek", "end", d] => d.toInt?.map (fun d => .seek (.fromEnd d))
   | ["seek", "cur", d] => d.toInt?.map (fun d => .seek (.current d))
   | ["setlen", n] => n.toNat?.map .setLen
+  -- `set_len` beyond the format's capacity is refused before anything happens (F26): the identity; the harness
+  -- answers with the length when the call was refused with InvalidInput
+  | ["setlen-over", _] => some .len
   | ["flush"] => some .flush
   | ["len"] => some .len
   | _ => none
